@@ -30,17 +30,22 @@ func ValidateClientID(id string) (err error) {
 // clientIDFromClientServerName extracts and validates a ClientID.  hostSrvName
 // is the server name of the host.  cliSrvName is the server name as sent by the
 // client.  When strict is true, and client and host server name don't match,
-// clientIDFromClientServerName will return an error.
+// clientIDFromClientServerName will return an error.  The server names are
+// compared case-insensitively.
 func clientIDFromClientServerName(
 	hostSrvName string,
 	cliSrvName string,
 	strict bool,
 ) (clientID string, err error) {
-	if hostSrvName == cliSrvName {
+	// Host names are case-insensitive, and neither the TLS implementation nor
+	// the configuration normalize them, while [netutil.IsImmediateSubdomain]
+	// requires the same letter case.
+	host, cli := toLowerASCII(hostSrvName), toLowerASCII(cliSrvName)
+	if host == cli {
 		return "", nil
 	}
 
-	if !netutil.IsImmediateSubdomain(cliSrvName, hostSrvName) {
+	if !netutil.IsImmediateSubdomain(cli, host) {
 		if !strict {
 			return "", nil
 		}
@@ -52,14 +57,28 @@ func clientIDFromClientServerName(
 		)
 	}
 
-	clientID = cliSrvName[:len(cliSrvName)-len(hostSrvName)-1]
+	clientID = cli[:len(cli)-len(host)-1]
 	err = ValidateClientID(clientID)
 	if err != nil {
 		// Don't wrap the error, because it's informative enough as is.
 		return "", err
 	}
 
-	return strings.ToLower(clientID), nil
+	return clientID, nil
+}
+
+// toLowerASCII is like [strings.ToLower] but only converts ASCII letters, so
+// that non-ASCII runes, which are invalid in ClientIDs, aren't folded into valid
+// ones.
+func toLowerASCII(s string) (lower string) {
+	b := []byte(s)
+	for i, c := range b {
+		if c >= 'A' && c <= 'Z' {
+			b[i] = c + ('a' - 'A')
+		}
+	}
+
+	return string(b)
 }
 
 // clientIDFromDNSContextHTTPS extracts the ClientID from the path of the
